@@ -45,6 +45,20 @@ impl Judge {
         self.trace.absorb(&evs);
     }
 
+    /// Some *.blob file with written bytes that no completed sync covers
+    fn first_unsynced_blob(&self) -> Option<(PathBuf, u64, u64)> {
+        for (path, ft) in &self.trace.files {
+            if path.extension().and_then(|e| e.to_str()) != Some("blob") || ft.removed.is_some() || ft.renamed_to.is_some() {
+                continue;
+            }
+            let (w, s) = (ft.written_len_at(u64::MAX), ft.synced_len_at(u64::MAX));
+            if w != s {
+                return Some((path.clone(), w, s));
+            }
+        }
+        None
+    }
+
     fn unsynced(&self, blob: &Path) -> (u64, u64) {
         match self.trace.file(blob) {
             None => (0, 0),
@@ -134,6 +148,14 @@ pub fn run_sync(c: &Case, dir: &Path, findings: &Findings) -> Result<CaseOut, Fa
                 }
                 ex.labels.insert("explicit_sync_point");
             }
+            // rule 5: when close() of the storage has returned nothing will ever sync again - every acknowledged byte of
+            // EVERY blob (also a closed one that got a deletion marker and was waiting for its deferred dump) is synced
+            if matches!(op, Op::Reopen { .. }) {
+                if let Some((p, w, s)) = j.first_unsynced_blob() {
+                    return ex.fail("sync/close-leaves-unsynced-closed-blob", format!("{}: {} bytes written, {} covered by a completed sync when close() returned", p.display(), w, s));
+                }
+                ex.labels.insert("storage_close_point");
+            }
             if let Some(p) = active_path(&ex) {
                 let (w, s) = j.unsynced(&p);
                 if w - s.min(w) > j.limit {
@@ -168,6 +190,9 @@ pub fn run_sync(c: &Case, dir: &Path, findings: &Findings) -> Result<CaseOut, Fa
             if w != s {
                 return ex.fail("sync/close-leaves-unsynced", format!("{}: {} bytes written, {} covered by a completed sync after close() returned", p.display(), w, s));
             }
+        }
+        if let Some((p, w, s)) = j.first_unsynced_blob() {
+            return ex.fail("sync/close-leaves-unsynced-closed-blob", format!("{}: {} bytes written, {} covered by a completed sync when close() returned", p.display(), w, s));
         }
         let (created, marked) = match j.ordering_rules(c.cfg.keylen) {
             Ok(x) => x,
@@ -384,7 +409,7 @@ pub fn run(ctx: &RunCtx) -> PropResult {
     PropResult {
         report,
         level: "exploration",
-        rule: "proptest histories (data ops with value sizes around 4 KiB / 80 KiB, concurrent write bursts, explicit fsyncdata, close/create/restore/force_update of the active blob, restarts, wait-idle) for max_dirty_bytes_before_sync in {0, 1, 100, 4096, 1 MiB, default}, run under the I/O tap with payload capture. Oracle = four rules over the ordered trace of create/write/sync events (a write counts as covered by a sync only if its end event precedes the sync's begin event): (1) every created *.blob starts with the 20-byte header and a completed sync of that file precedes its second write; (2) every index header rewrite with the written bit set is preceded by a completed sync of the sibling blob that began after all bytes below the recorded blob_size were written; (3) when fsyncdata(), try_close_active_blob()/close_active_blob_in_background() or close() have returned, every byte written to that blob is covered by a completed sync; (4) at every idle point (H3 probe: no message queued or in process, no task running) the active blob's un-synced bytes are within the limit. A second phase (sync-fault) generates write / concurrent-burst / fsyncdata / wait-idle histories in which the n-th sync of a blob file fails once (failpoint, EIO or ENOSPC), for limits {0, 1, 100, 4096} with and without blob rotation: a failed sync leaves the bytes un-synced, and rule 4 is judged at every idle point that follows an acknowledged write made after the failure (that write finds the limit exceeded again, so a new sync has to happen); an error of a call is accepted only if a failpoint fired during it. Non-trivial = the limit was exceeded at some step or an index was marked complete (sync phase); rule 4 judged after an injected sync failure (sync-fault phase). distinct = FNV hash of the serialized case.".into(),
+        rule: "proptest histories (data ops with value sizes around 4 KiB / 80 KiB, concurrent write bursts, explicit fsyncdata, close/create/restore/force_update of the active blob, restarts, wait-idle) for max_dirty_bytes_before_sync in {0, 1, 100, 4096, 1 MiB, default}, run under the I/O tap with payload capture. Oracle = four rules over the ordered trace of create/write/sync events (a write counts as covered by a sync only if its end event precedes the sync's begin event): (1) every created *.blob starts with the 20-byte header and a completed sync of that file precedes its second write; (2) every index header rewrite with the written bit set is preceded by a completed sync of the sibling blob that began after all bytes below the recorded blob_size were written; (3) when fsyncdata(), try_close_active_blob()/close_active_blob_in_background() or close() have returned, every byte written to that blob is covered by a completed sync; (4) at every idle point (H3 probe: no message queued or in process, no task running) the active blob's un-synced bytes are within the limit; (5) when close() of the storage has returned, every byte written to ANY blob file is covered by a completed sync (nothing will sync later). A second phase (sync-fault) generates write / concurrent-burst / fsyncdata / wait-idle histories in which the n-th sync of a blob file fails once (failpoint, EIO or ENOSPC), for limits {0, 1, 100, 4096} with and without blob rotation: a failed sync leaves the bytes un-synced, and rule 4 is judged at every idle point that follows an acknowledged write made after the failure (that write finds the limit exceeded again, so a new sync has to happen); an error of a call is accepted only if a failpoint fired during it. Non-trivial = the limit was exceeded at some step or an index was marked complete (sync phase); rule 4 judged after an injected sync failure (sync-fault phase). distinct = FNV hash of the serialized case.".into(),
         assumptions: {
             let mut a = common_assumptions();
             a.push("rule 4 turns 'eventually' into 'once nothing is pending' (quiescence observed through the H3 probe)".into());
